@@ -2,7 +2,7 @@
    (to_absolute_note, correct_chord_octave), C10 (decompose_duration), C14 (to_scale_note / to_standard_note
    go through Chord.parse).  The other re-notations are evaluated on the implementation by the oracle. *)
 From ML Require Import Model.Types gen.Tables Model.Pitch Model.Rel Model.Ton Model.Render Model.Slice Model.Renote.
-From ML Require Import Spec.PitchSpec Spec.RenderSpec Proofs.PitchProofs Proofs.RenderProofs Proofs.RenoteProofs Proofs.RenoteScore Proofs.RenoteStandard.
+From ML Require Import Spec.PitchSpec Spec.RenderSpec Proofs.PitchProofs Proofs.RenderProofs Proofs.RenoteProofs Proofs.RenoteScore Proofs.RenoteStandard Proofs.RenoteTones.
 Open Scope Z_scope.
 
 (* to_absolute_note: along the timeline of a part (relative notes have an earlier pitched note since the part was
@@ -62,6 +62,31 @@ Proof. exact to_standard_keeps_pitch. Qed.
 Theorem C11_to_standard_absolute : forall c n n', elem_ok c -> pkind n = KA -> pdir n = Abs ->
   note_to_standard c n = Some n' -> to_pitch_abs c n' = to_pitch_abs c n /\ pmode n' = None /\ pacc n' = None.
 Proof. exact to_standard_absolute. Qed.
+
+(* to_chord_note / to_extension_note (Note / Melody / Chord / Score level are maps of the note-level form): a note found, octaves
+   apart, among the chord's tones is written as the chord tone / bass tone of that index - and sounds the same pitch, for EVERY chord
+   (any figure, modifiers, tonality, octaves) and every note; every other note is kept as it is *)
+Theorem C11_to_chord_note : forall c n n', note_to_chord_note c n = Some n' -> to_pitch_abs c n' = to_pitch_abs c n.
+Proof. exact to_chord_note_keeps_pitch. Qed.
+
+Theorem C11_to_extension_note : forall c n n', note_to_extension_note c n = Some n' -> to_pitch_abs c n' = to_pitch_abs c n.
+Proof. exact to_extension_note_keeps_pitch. Qed.
+
+(* non-vacuity: in V6 of C major the third of the chord an octave up (s2.o(1)) is chord tone 1 and bass tone 0, one octave up; a note
+   outside the chord (s1) is kept *)
+Example C11_ex_tones :
+  let c := mkC 4 (bare "6") (mkT 0 MMaj 0) 0 in
+  note_to_chord_note c (plain KS 2 1) = Some (plain KC 1 1) /\ note_to_extension_note c (plain KS 2 1) = Some (plain KB 0 1) /\
+  note_to_chord_note c (plain KS 1 0) = Some (plain KS 1 0) /\
+  to_pitch_abs c (plain KC 1 1) = to_pitch_abs c (plain KS 2 1) /\ to_pitch_abs c (plain KS 2 1) = Some (Some 23).
+Proof. vm_compute. repeat split; reflexivity. Qed.
+
+(* to_scale_note at note / melody / chord level (Note.to_scale_note(chord), Melody.to_scale_notes(chord), Chord.to_scale_notes()):
+   every non-relative pitched note, whatever its system, per-note mode or accidental, is rewritten as a plain scale or chromatic note
+   that sounds the same pitch under the same chord *)
+Theorem C11_to_scale_note : forall c n p, elem_ok c -> to_pitch_abs c n = Some (Some p) ->
+  exists n', to_scale_note c n = Some n' /\ to_pitch_abs c n' = Some (Some p) /\ pdir n' = Abs /\ pacc n' = None /\ pmode n' = None.
+Proof. exact to_scale_note_keeps_pitch. Qed.
 
 Example C11_ex_standard :
   let c := mkC 4 (bare "65") (mkT 0 MMaj 0) 0 in
